@@ -135,25 +135,9 @@ def run(idx, rep, tier):
             ok = None if poly is None else poly == want
             why = f"tol' = `{ast.unparse(v)}`" + ("" if ok else (": required tol * ||r0|| + tol" if ok is False else ": outside the polynomial fragment"))
     rep.decide(ok, "stopping-test", "cg:tolerance", why, detail="" if ok else "tolerance", locs=[idx.loc(routine.module, routine.node)])
-    # ---- scaling in and out by the same quantity
-    mult = None
-    for name, vals in asg.items():
-        for v, p, st in vals:
-            if isinstance(v, ast.Call) and df.is_xnp_call(v) == "norm" and v.args and isinstance(v.args[0], ast.Name) and v.args[0].id in routine.params:
-                mult = (name, v.args[0].id, v)
-    if mult is None:
-        rep.undecided("scaling", "cg:scaling", "column norms of the right-hand side not found")
-    else:
-        mname, bname, mcall = mult
-        av = axis_value(next((k.value for k in mcall.keywords if k.arg == "axis"), None))
-        divided = any(isinstance(v, ast.Call) and [ast.unparse(a) for a in v.args[:2]] == [bname, mname] or
-                      (isinstance(v, ast.BinOp) and isinstance(v.op, ast.Div) and ast.unparse(v.left) == bname and ast.unparse(v.right) == mname)
-                      for vals in asg.values() for v, p, st in vals)
-        rets = [r.value for r in df.returns(routine.node) if r.value is not None and isinstance(r.value, ast.Tuple)]
-        scaled_back = [ast.unparse(e) for r in rets for e in r.elts if isinstance(e, ast.BinOp) and isinstance(e.op, ast.Mult) and mname in df.names_in(e)]
-        ok = divided and len(scaled_back) >= 2 and av in (-2, 0)
-        rep.decide(ok, "scaling", "cg:scaling", f"`{mname}` = column norms of `{bname}` (axis {av}); right-hand side {'divided' if divided else 'NOT divided'} by it; returned {scaled_back} multiplied back",
-                   detail="" if ok else "scaling", locs=[idx.loc(routine.module, mcall)])
+    # ---- scaling in and out by the same quantity: decided by HOMOG below (an un-normalised right-hand side makes the threshold
+    # inhomogeneous, a missing or doubled rescaling gives the solution a degree other than 1); the axis of the column norms is
+    # one of the reductions checked for column independence
     # ---- column independence of the reductions that feed the iterate
     errfn = None
     if l.winfo_call is not None and l.winfo_call.args:
@@ -179,7 +163,6 @@ def run(idx, rep, tier):
     bookkeeping(idx, rep)
     rep.floor("loop-cap", 1)
     rep.floor("stopping-test", 2)
-    rep.floor("scaling", 1)
     rep.floor("scale-homogeneity", 3)
     rep.floor("column-independence", 4)
     rep.floor("iteration-count", 1)
